@@ -155,10 +155,18 @@ CLAIMED['C17'] = dict(
          'nodes), C17_delete_own_only (every call of a delete request is on a path registered for that container), '
          'C17_newer_kept (a path re-registered by a newer container is not visited by the old container\'s clean-up); '
          'tied to the code by running the real PresenceResourceService as concurrent clients against a shared '
-         'in-memory ZooKeeper with seed-chosen schedules.',
+         'in-memory ZooKeeper with seed-chosen schedules. Second stage (Node/EpPresence.v, built by a sub-agent): '
+         'presence.EndpointPresence register/unregister_* and trace.app.zk._unschedule for all node tables and all '
+         'operation lists by any number of hosts: C17_ep_unregister_*_exact (what each call deletes: the node of its own '
+         'host and nothing else), C17_ep_foreign_nodes_survive, C17_ep_newer_elsewhere_kept, '
+         'C17_ep_cleanup_elsewhere_keeps_newer (the late clean-up of an old container on host A leaves the nodes of the '
+         'newer one on host B), C17_ep_unschedule_exact, C17_ep_stale_events_keep_scheduled; boundaries of hostname '
+         'ownership stated with witnesses (C17_ep_same_host_newer_refuted, C17_ep_port_not_compared, '
+         'C17_ep_check_then_act_witness); tied by its own correspondence stage on the real methods.',
     note='ZooKeeper session semantics and process exit on session loss are assumptions; no session re-establishment '
-         'inside a request; no external deleter; EndpointPresence.unregister_*/kill_node (hostname ownership) and '
-         '_unschedule are not covered.',
+         'inside a request; no external deleter; one call of EndpointPresence.unregister_* / _unschedule is one atomic '
+         'step in the model (in the code get-then-delete are two ZooKeeper calls: C17_ep_check_then_act_witness); host '
+         'names non-empty, without colon.',
     technique='Rocq proof (inductive invariant over a small-step interleaving model) + schedule-controlled '
               'differential correspondence (baton-passing threads yielding at every ZooKeeper call) + ownership oracle',
     ref='DESIGN.md section 7 C17')
